@@ -90,9 +90,12 @@ class SpanActionContext(ActionContext):
         spans = []
 
         for span_processor in self.trigger_context.config.span_processors:
-            span = span_processor.create_span(name, self.trigger_context.id, self.location_action.tracepoint.id)
-            if span:
-                spans.append(span)
+            try:
+                span = span_processor.create_span(name, self.trigger_context.id, self.location_action.tracepoint.id)
+                if span:
+                    spans.append(span)
+            except Exception:
+                deep.logging.exception("Cannot create span %s with processor %s", name, span_processor)
 
         if len(spans) > 0:
             self.trigger_context.attach_result(SpanResult(spans))
